@@ -1,10 +1,14 @@
 """C05 -- svd_interface returns a genuine, sign-canonical truncated SVD.
 Correspondence: Model/Svd.v (svd_checks, truncated_svd, svd_flip, mask imputation, NNDSVD(A), svd_interface dispatch,
-symeig_svd) vs tensorly/tenalg/svd.py.  LAPACK svd/eigh and the non-modelled back ends are taped (their real answers
-are handed to the model as data); slicing and +-1 multiplications are compared exactly in Q, everything through
-products / sqrt / division with tolerance.
+symeig_svd, randomized_range_finder / randomized_svd) vs tensorly/tenalg/svd.py.  LAPACK svd / eigh / qr, the Gaussian test
+matrix and the back ends that are not modelled are taped (their real answers are handed to the model as data); slicing and
++-1 multiplications are compared exactly in Q, everything through products / sqrt / division with tolerance.
+Coq cases are Groups: requests sharing matrix, method, mask and a byte-identical tape share one literal of them; floats are
+written as (D m e) / (N m e) = +-m / 2^e with primitive-integer m, e (parsing literals is the dominant cost of a shard).
 Predicates: documented shapes, S >= 0 non-increasing and equal to the true leading singular values, orthonormal
-factors, ||M - U_k S_k V_k||^2 = sum of discarded s_i^2, sign convention, flip keeps the product, non-negativity."""
+factors, ||M - U_k S_k V_k||^2 = sum of discarded s_i^2, sign convention, flip keeps the product, non-negativity.
+Local helpers that could live in common.py: retry_broken (re-evaluates coqc shards killed from outside), dq/dq_list
+(dyadic literals), _install_known_loader (reads known_findings.d/C05.json directly)."""
 import importlib, json, os, random
 import numpy as np
 from harness import common as C
